@@ -52,6 +52,10 @@ def gen_rank(rnd: random.Random, rank: int, p: Dict[str, Any]) -> Dict[str, Any]
     vocab = [f"op_r{rank}_{i}" for i in range(rnd.randint(1, 1 + p["vocab"]))] + rnd.sample(SHARED, rnd.randint(0, 5))
     if p["steps"]:
         vocab += [f"ProfilerStep#{k}" for k in rnd.sample(range(1, 40), p["steps"])]
+    if n > 2000:
+        # K2 (sync-named events without correlation id are joined with every id-less host event when trimming) is
+        # quadratic: tens of GB for 33000 events.  The mechanism is exercised by the small cases; keep it out of the huge ones.
+        vocab = [v for v in vocab if v not in ("Event Sync", "Context Sync")]
     corr_small = rnd.random() < 0.6
     # event 0 is a host operator, as Kineto writes it (needed by the correlation transform's sentinel)
     ev: List[Dict[str, Any]] = [{"ph": "X", "cat": "cpu_op", "name": "aten::first", "pid": host_pid, "tid": host_pid,
